@@ -57,10 +57,11 @@ BitAt(x, k) == (x \div (2 ^ k)) % 2
 MaskedEqBits(a, b, wc, width) ==
     \A k \in 0 .. width - 1 : BitAt(wc, k) = 0 => BitAt(a, k) = BitAt(b, k)
 
+\* (values below AnyN - the harness's "not an address of this trace's embedding" - match nothing)
 AddrMatches(base, mask, a) ==
     \/ base = AnyN                              \* unspecified: anything (a mask alone says nothing)
     \/ /\ base # AnyN /\ mask = AnyN /\ a = base   \* exact
-    \/ /\ base # AnyN /\ mask # AnyN /\ MaskedEq(a, base, mask)
+    \/ /\ base >= 0 /\ mask >= 0 /\ a >= 0 /\ MaskedEq(a, base, mask)
 
 PortMatches(rp, pp)  == rp = AnyN \/ rp = pp
 ProtoMatches(rq, pq) == rq = AnyP \/ rq = pq
@@ -127,6 +128,10 @@ Check(p) ==
     /\ hits'  = HitsAfter(p)
     /\ ihits' = IHitsAfter(p)
     /\ UNCHANGED <<npos, implicit, acl>>
+
+(* Something happened to ANOTHER list (an add / remove / verdict there):   *)
+(* this list is not concerned.                                             *)
+Elsewhere == UNCHANGED avars
 
 -----------------------------------------------------------------------------
 (* C07 clauses, as predicates of the current state and a proposed          *)
